@@ -70,14 +70,20 @@ def create(spec: dict):
     cls = getattr(pg, VARIANTS[v][0])
     kind = VARIANTS[v][1]
     if kind == 'mb':
-        return cls.create_state(autos, spec['trim'], spec['antes'], spec['blinds'], spec['bb'], spec['stacks'], spec['n'], **kw)
-    if kind == 'sb':
-        return cls.create_state(autos, spec['trim'], spec['antes'], spec['blinds'], spec['sb'], spec['bb'], spec['stacks'],
-                                spec['n'], **kw)
-    if kind == 'stud':
-        return cls.create_state(autos, spec['trim'], spec['antes'], spec['bringin'], spec['sb'], spec['bb'], spec['stacks'],
-                                spec['n'], **kw)
-    raise KeyError(v)
+        game = cls(autos, spec['trim'], spec['antes'], spec['blinds'], spec['bb'], **kw)
+    elif kind == 'sb':
+        game = cls(autos, spec['trim'], spec['antes'], spec['blinds'], spec['sb'], spec['bb'], **kw)
+    elif kind == 'stud':
+        game = cls(autos, spec['trim'], spec['antes'], spec['bringin'], spec['sb'], spec['bb'], **kw)
+    else:
+        raise KeyError(v)
+    Last.game = game
+    return game(spec['stacks'], spec['n'])
+
+
+class Last:
+    """the game object behind the most recently created state (the hand-history writer wants it)"""
+    game = None
 
 
 def random_spec(rng: random.Random, *, variants=None, autos='random', mode=None, max_n=None, stacks='mixed',
